@@ -19,15 +19,10 @@ pub struct Img {
 }
 
 fn any_bytes<S: Src>(s: &mut S, len: usize, ascii: bool) -> [u8; 8] {
+    // straight-line (no loop: the unwinding bound of the harness is reserved for the library's loops)
     let mut b = [0u8; 8];
-    let mut i = 0;
-    while i < len {
-        b[i] = s.u8();
-        if ascii {
-            s.assume(b[i] < 0x80);
-        }
-        i += 1;
-    }
+    macro_rules! one { ($i:expr) => { if len > $i { b[$i] = s.u8(); if ascii { s.assume(b[$i] < 0x80); } } }; }
+    one!(0); one!(1); one!(2); one!(3); one!(4); one!(5); one!(6); one!(7);
     b
 }
 
@@ -82,16 +77,11 @@ pub fn read<S: Src>(s: &mut S, l0: usize, l1: usize, size: u64, le: bool) {
             chk!(s, !i.w[k], "C19 read: returned bytes for a range inside a writable segment");
             let off = (addr - i.base[k]) as usize;
             let mut want = 0u64;
-            let mut j = 0usize;
-            while j < size as usize {
-                let byte = i.bytes[k][off + j] as u64;
-                if le {
-                    want |= byte << (8 * j);
-                } else {
-                    want = (want << 8) | byte;
-                }
-                j += 1;
-            }
+            macro_rules! one { ($j:expr) => { if ($j as u64) < size {
+                let byte = i.bytes[k][off + $j] as u64;
+                if le { want |= byte << (8 * $j); } else { want = (want << 8) | byte; }
+            } }; }
+            one!(0); one!(1); one!(2); one!(3); one!(4); one!(5); one!(6); one!(7);
             chk!(s, bv_is(&v, 8 * size as u32, want), "C19 read: returned value differs from the bytes stored in the image (byte order / offset)");
             cov!(s, true, "value-returning read reached");
             if (l0 as u64) > size || (l1 as u64) > size {
@@ -199,26 +189,16 @@ pub fn string<S: Src>(s: &mut S, l0: usize, l1: usize) {
             let off = (addr - i.base[k]) as usize;
             // position of the first NUL at or after off inside segment k
             let mut nul: Option<usize> = None;
-            let mut j = 0usize;
-            while j < 8 {
-                if j >= off && (j as u64) < i.len[k] && i.bytes[k][j] == 0 && nul.is_none() {
-                    nul = Some(j);
-                }
-                j += 1;
-            }
+            macro_rules! one { ($j:expr) => { if $j >= off && ($j as u64) < i.len[k] && i.bytes[k][$j] == 0 && nul.is_none() { nul = Some($j); } }; }
+            one!(0); one!(1); one!(2); one!(3); one!(4); one!(5); one!(6); one!(7);
             if !i.w[k] {
                 match (got, nul) {
                     (Ok(st), Some(n)) => {
                         let b = st.as_bytes();
                         chk!(s, b.len() == n - off, "C19 read_string: returned string has the wrong length");
                         let mut ok = b.len() == n - off;
-                        let mut j = 0usize;
-                        while j < 8 {
-                            if ok && j < b.len() && b[j] != i.bytes[k][off + j] {
-                                ok = false;
-                            }
-                            j += 1;
-                        }
+                        macro_rules! one { ($j:expr) => { if ok && $j < b.len() && b[$j] != i.bytes[k][off + $j] { ok = false; } }; }
+                        one!(0); one!(1); one!(2); one!(3); one!(4); one!(5); one!(6); one!(7);
                         chk!(s, ok, "C19 read_string: returned string differs from the bytes stored in the image");
                         cov!(s, off > 0 && n > off, "non-empty string at a non-zero offset reached");
                     }
@@ -276,19 +256,20 @@ pub fn bare_metal<S: Src>(s: &mut S) {
 }
 
 crate::harnesses! {
-    @quick c19_read_1_le => read(3, 3, 1, true);
-    @quick c19_read_2_le => read(3, 3, 2, true);
-    @quick c19_read_2_be => read(3, 3, 2, false);
-    c19_read_4_le => read(5, 4, 4, true);
-    @quick c19_read_4_be => read(3, 6, 4, false);
-    c19_read_8_le => read(8, 3, 8, true);
-    c19_read_8_be => read(2, 8, 8, false);
-    c19_read_1_be_4_2 => read(4, 2, 1, false);
-    @quick c19_flags => flags(3, 3);
-    c19_flags_4_1 => flags(4, 1);
-    @quick c19_string => string(3, 3);
-    c19_string_4_2 => string(4, 2);
-    @quick c19_is_global_8 => is_global(2, 2, 8);
-    c19_is_global_32 => is_global(4, 4, 32);
-    @quick c19_bare_metal => bare_metal();
+    // unwinding bound = read size + 1 (the Piece loop of `read` runs size-1 times, the byte-reversal size times)
+    @quick c19_read_1_le[3] => read(3, 3, 1, true);
+    @quick c19_read_2_le[3] => read(3, 3, 2, true);
+    @quick c19_read_2_be[3] => read(3, 3, 2, false);
+    c19_read_4_le[5] => read(5, 4, 4, true);
+    @quick c19_read_4_be[5] => read(3, 6, 4, false);
+    c19_read_8_le[9] => read(8, 3, 8, true);
+    c19_read_8_be[9] => read(2, 8, 8, false);
+    c19_read_1_be_4_2[3] => read(4, 2, 1, false);
+    @quick c19_flags[3] => flags(3, 3);
+    c19_flags_4_1[3] => flags(4, 1);
+    @quick c19_string[5] => string(3, 3);
+    c19_string_4_2[6] => string(4, 2);
+    @quick c19_is_global_8[3] => is_global(2, 2, 8);
+    c19_is_global_32[5] => is_global(4, 4, 32);
+    @quick c19_bare_metal[4] => bare_metal();
 }
